@@ -441,6 +441,8 @@ pub fn profile(name: &str, tier: Tier) -> Option<Profile> {
             p.rounds = Range(1, 3);
             p.updates = Range(0, 30);
             p.queries = Range(3, 5);
+            // few trees: the event stream of a 500-item build is what makes these traces big
+            p.ntrees = vec![(1, None), (4, Some(Range(1, 3)))];
             p.poll_limit = Some(if q { 5_000_000 } else { 50_000_000 });
             p.first_ops.del_present = 1;
             p.first_ops.append_ok = 2;
